@@ -12,7 +12,7 @@ def more(tier, seed, w, v, lay, tp):
     mc = [tlc_mc("Minecraft.tla", "MC_Minecraft.cfg", workers=4, name="c03_mc", coverage=False)]
     b = f"{w}/beh_minecraft.ndjson"
     mc.append(behaviours("Minecraft.tla", "Gen_Minecraft.cfg", b, "c03_gen"))
-    r = vh(["minecraft-behaviours", "--layouts", lay, "--in", b, "--reps", 1 if quick else 8, "--seed", seed], name="c03b")
+    r = vhr(["minecraft-behaviours", "--layouts", lay, "--in", b], 1 if quick else 8, seed, tier, name="c03b")
     v.add_report(r, "auto-detect behaviours")
     return [r], mc
 
